@@ -10,7 +10,7 @@
 // process. Files: spec.go (type grammar, features, tag classes, tree edits), gen.go (stage-1 corpus,
 // stage-2 generator), populate.go (values inside / outside the tag zones, names oracle), eval.go
 // (pipeline, fresh-process regeneration), collide.go (stage 2d: several fields at different embedding depths
-// claiming one JSON name), history.go (stage 3), child.go / bind.go (child roles),
+// claiming one JSON name), marshal.go (stage 2m: types with MarshalJSON / MarshalText methods), history.go (stage 3), child.go / bind.go (child roles),
 // oracle.go + oracle.py (reference oracle), corpus/ (compiled types).
 package main
 
@@ -441,6 +441,10 @@ func main() {
 	runCollisions(r, ev, sampled)
 	phase("collisions-evaluated")
 
+	// ------------------------------------------------------------------ stage 2m: types with custom marshalling (marshal.go)
+	runMarshalers(r, ev, sampled)
+	phase("marshalers-evaluated")
+
 	// ------------------------------------------------------------------ batch verdicts a fresh process did not reproduce
 	reportBatch := func() {
 		ev.histMu.Lock()
@@ -588,6 +592,12 @@ func main() {
 		"(c) the types of the history pools, each x 4 option sets; a failing document is generated once more by a fresh process for that type alone (when the two differ the batch document is reported as history-dependent "+
 		"and the stage verdict is the one on the fresh document); a failing composition is re-tested without the fields carrying features that already fail alone and then minimised by delta debugging over fields, "+
 		"options and wrappers. Two generated values per type (small; boundary integers +-(2^53-1), non-ASCII strings; inside the zone of the field's own tag, outside every tight zone otherwise), recursion cut at depth 2. "+
+		"stage 2m (custom marshalling): a compiled family of about 100 types crossing {json.Marshaler only, encoding.TextMarshaler only, both (also MarshalJSON on the value and MarshalText on the pointer, and the reverse), neither} x "+
+		"{value, pointer receiver} x {MarshalJSON writes a string, number, boolean, object, array, null} x underlying kind (struct, integer, string, bool, float, []byte, [16]byte, map, slice, uint8), holders embedding one (promoted methods) and "+
+		"standard-library types (*big.Int, *big.Float, *big.Rat, net.IP, netip.Addr/Prefix/AddrPort, *regexp.Regexp, url.URL, slog.Level, time.Duration, time.Month, net.HardwareAddr), each as field, pointer, slice element, map value (quick: plus, for a third of the types rotating with the seed; thorough: "+
+		"for all) omitempty, slice of pointers, array, pointer to array, map of pointers / slices, nested struct by value / through a pointer, used twice, ',string' (primitive kinds), map KEY (integer / string kinds and TextMarshaler keys) x 4 option sets; "+
+		"plus seeded mixes (quick 60 / thorough 1200 structs of 2-5 family types below seeded wrapper chains next to a recursive compiled type; a failing mix is attributed by judging each field alone). The instances are json.Marshal of the populated value, by value and, where that "+
+		"gives another text, through a pointer; distinct by (style, implementation, receiver, JSON form, underlying kind, position). "+
 		"stage 3 (history): per session a seeded pool of types sharing field kinds (tagged / untagged / below a wrapper / sibling), two unnamed nested struct types and compiled recursive types (tagged and untagged "+
 		"struct-typed fields, roots) plus random compositions; ONE child process generates every (type, style) of the pool 2 (thorough 3) times in seeded random order (A, B, A again, ...), a second child generates them "+
 		"concurrently from 4 (8) goroutines; every document is compared, as JSON with $defs names up to renaming, with the document of a fresh process that generated only that (type, style); a document that "+
@@ -607,6 +617,9 @@ func main() {
 			"typed binding is judged on the JSON encoding of the received value (reflect.DeepEqual differences that are invisible in JSON are only counted)",
 			"tools/list fidelity is judged on Tool.RawInputSchema / RawOutputSchema; the re-parsed openapi3 object is only counted",
 			"collisions: which claimant of a JSON name wins, or that the name is dropped, is never computed by the harness - names and values come from json.Marshal of the populated value; the arrangement class in the signature only describes what was built (depths, tagged / untagged, options)",
+			"custom marshalling: encoding/json calls a pointer-receiver MarshalJSON / MarshalText only on an addressable value, so a type with such a method held BY VALUE (field, array element, nested struct, map value) has two encodings, depending on whether the caller " +
+				"marshals the root by value or through a pointer (a map value is never addressable, although decoding always is): the text written through a pointer is judged, the by-value text is only counted (marshal_by_value_text_of_pointer_receiver_type_rejected); " +
+				"a struct that embeds a marshaler is judged as a field type, not as the root (the root of tool arguments is a JSON object by protocol)",
 			"random compositions, random collision arrangements and history orders are sampled, not enumerated",
 		})
 }
